@@ -1252,20 +1252,41 @@ def normalise_operand(s):
     return s
 
 
+_LEN = re.compile(r'^(?:[\w\[\]<>, ]+::)?len\((.*)\)$')
+_EMPTY = re.compile(r'^(?:[\w\[\]<>, ]+::)?is_empty\((.*)\)$')
+_QUANT = re.compile(r'^Iterator::(all|any)\(')
+
+
 def canonical_condition(rel):
-    """polarity-free key of a condition: `a != b` and `a == b`, `a < b` and `b <= a`, `c` and `!c` share one key (which side of a
-    branch is taken is not visible reliably -- MIR folds `!` into the branch targets -- and is the business of the GUARD rules)"""
+    """polarity-free key of a condition: `a != b` and `a == b`, `a < b` and `b <= a`, `c` and `!c`, `is_none` and `is_some`,
+    `is_empty()` and `len() == 0` / `len() > 0` share one key (which side of a branch is taken is not visible reliably -- MIR folds
+    `!` into the branch targets -- and is the business of the GUARD rules). `iter.all(closure)` / `iter.any(closure)` are not
+    keyed: the test lives in the closure, whose result is keyed, and survives a rewrite of the adaptor as a loop."""
     if rel[0] in ('truth', 'not'):
         txt = normalise_operand(rel[1])
-        while txt.startswith('Not::not(') and txt.endswith(')'):
-            txt = txt[len('Not::not('):-1]
-        while txt.startswith('Not(') and txt.endswith(')'):
-            txt = txt[4:-1]
+        while True:
+            if txt.startswith('Not::not(') and txt.endswith(')'):
+                txt = txt[len('Not::not('):-1]
+            elif txt.startswith('Not(') and txt.endswith(')'):
+                txt = txt[4:-1]
+            else:
+                break
         if txt in ('_', 'const 0', 'const 1') or re.fullmatch(r'[{}|_ const01]+', txt):
             return None        # flags / desugared `&&`/`||` temporaries
+        if _QUANT.match(txt):
+            return None
+        txt = re.sub(r'^Option::is_none\(', 'Option::is_some(', txt)
+        txt = re.sub(r'^Result::is_err\(', 'Result::is_ok(', txt)
+        m = _EMPTY.match(txt)
+        if m:
+            return 'len(%s) == const 0' % m.group(1)
         return txt
     a, c = normalise_operand(rel[1]), normalise_operand(rel[2])
     r_ = rel[0]
+    for x, y in ((a, c), (c, a)):
+        m = _LEN.match(x)
+        if m and y == 'const 0':
+            return 'len(%s) == const 0' % m.group(1)
     if r_ in ('==', '!='):
         a, c = sorted((a, c))
         return '%s == %s' % (a, c)
@@ -1322,7 +1343,6 @@ def condition_inventory(P, files):
                     key = canonical_condition(rel)
                     if key:
                         fl = fn['loc'].rsplit(':', 1)[0]
-                        key = 'returns ' + key
                         out.setdefault(fl, {})
                         out[fl][key] = out[fl].get(key, 0) + 1
                         hints.setdefault(fl, {}).setdefault(key, set()).add(owner_qual(P, fn))
@@ -1351,6 +1371,39 @@ def condition_inventory(P, files):
             out[fl][key] = out[fl].get(key, 0) + 1
             hints.setdefault(fl, {}).setdefault(key, set()).add(owner_qual(P, fn))
     condition_inventory.hints = {f: {k: sorted(v) for k, v in d.items()} for f, d in hints.items()}
+    condition_inventory.aliases = _variant_tests(P, files)
+    return out
+
+
+def _variant_tests(P, files):
+    """{file: {key: count}} of the `Option::is_some(X)` / `Result::is_ok(X)` keys that the two-way discriminant tests
+    (`if let Some(_) = X`, `matches!(X, None)`, `match X {..}`) of the files stand for. Used only to MATCH reviewed
+    `is_some()` / `is_none()` conditions that were rewritten as patterns; never part of a baseline."""
+    out = {}
+    for fn in fns_in_files(P, files):
+        if fn.get('mac'):
+            continue
+        body = P.body(fn)
+        o = None
+        for bi, b in enumerate(body.B):
+            t = b['term']
+            if b.get('cu') or t['k'] != 'switch' or t['d']['k'] not in ('copy', 'move') or t['d']['pl']['p']:
+                continue
+            l = t['d']['pl']['l']
+            for d in body.defs.get(l, []):
+                if d[0] != 'st' or d[1]['k'] != 'discr':
+                    continue
+                ty = d[1].get('ty', '')
+                m = re.match(r'^&*(?:mut )?(?:std|core)::(option::Option|result::Result)<', ty)
+                if not m:
+                    continue
+                if o is None:
+                    o = Origins(body)
+                x = normalise_operand(o.op_str({'k': 'copy', 'pl': d[1]['pl']}))
+                key = ('Option::is_some(%s)' if 'Option' in m.group(1) else 'Result::is_ok(%s)') % x
+                fl = fn['loc'].rsplit(':', 1)[0]
+                out.setdefault(fl, {})
+                out[fl][key] = out[fl].get(key, 0) + 1
     return out
 
 
